@@ -2,6 +2,7 @@ CONSTANTS
   N = 3
   MaxTasks = 1
   G = 1
+  Stops = 1
   Dev = {}
   KeepHist = FALSE
 INIT GInit
